@@ -21,6 +21,7 @@
 #include <AIToolbox/Factored/Utils/Core.hpp>
 #include <AIToolbox/Seeder.hpp>
 #include <random>
+#include <map>
 
 using namespace verif;
 namespace M = AIToolbox::MDP;
@@ -120,6 +121,17 @@ struct FlatRun {
     }
     void allMod(bool matrix = false) { for (size_t s = 0; s < o.S; ++s) for (size_t a = 0; a < o.A; ++a) matrix ? obsModMatrix(s, a) : obsMod(s, a); }
     void allExp() { for (size_t s = 0; s < o.S; ++s) for (size_t a = 0; a < o.A; ++a) obsExp(s, a); h.n(exp.getTimesteps()); }
+    // the same data through the table accessors (getVisitsTable() / getVisitsTable(a) / getVisitsSumTable / getRewardMatrix / getM2Matrix)
+    void allExpTables() {
+        if constexpr (requires { exp.getVisitsSumTable(); exp.getVisitsTable(); }) {
+            for (size_t s = 0; s < o.S; ++s) for (size_t a = 0; a < o.A; ++a) {
+                for (size_t s1 = 0; s1 < o.S; ++s1) h.n((s1 % 2) ? exp.getVisitsTable()[a].coeff(s, s1) : exp.getVisitsTable(a).coeff(s, s1));
+                h.n(exp.getVisitsSumTable().coeff(s, a)).d(exp.getRewardMatrix().coeff(s, a)).d(exp.getM2Matrix().coeff(s, a));
+            }
+            h.n(exp.getTimesteps());
+            std::printf("#stat final_dump_through_table_accessors 1\n");
+        } else allExp();
+    }
 
     void doRecord(size_t s, size_t a, size_t s1, double r) {
         exp.record(s, a, s1, r);
@@ -172,7 +184,7 @@ struct FlatRun {
         return rng.below(np);
     }
     void finish(double junk) {
-        h.t("E"); allExp(); if (mod) allMod(true); h.op();
+        h.t("E"); allExpTables(); if (mod) allMod(true); h.op();
         h.hasModel = (bool)mod;
         h.emit(junk);
     }
@@ -426,7 +438,13 @@ struct CoopRun {
         for (size_t i = 0; i < nf; ++i) h.d(rv[i]);
         h.op();
     }
-    void finish() { h.t("E"); allExp(); h.n(mod ? 1 : 0); if (mod) allMod(); h.op(); h.emit("coophist"); }
+    void finish() {
+        h.t("E"); allExp(); h.n(mod ? 1 : 0); if (mod) allMod(); h.op(); h.emit("coophist");
+        std::map<std::string, long> cnt;
+        for (auto & t : h.toks) if (t == "r" || t == "s" || t == "x" || t == "S" || t == "c" || t == "R" || t == "q") ++cnt[t];
+        static const std::map<std::string, const char *> nm = {{"r", "record"}, {"s", "syncSA"}, {"x", "syncIndeces"}, {"S", "syncAll"}, {"c", "ctor"}, {"R", "reset"}, {"q", "query"}};
+        for (auto & [k, v] : cnt) std::printf("#stat coop_op_%s %ld\n", nm.at(k), v);
+    }
 };
 
 static void coopCase(Rng & rng, long nops, int rewardMode, double junk, bool withThompson, bool rich = true) {
